@@ -98,6 +98,7 @@ func (r *RecvA) URLFor(s string) (string, error) {
 }
 func (r *RecvA) X(n int64) error      { r.rec(fmt.Sprintf("X(%d)", n)); return nil }
 func (r *RecvA) Fails(s string) error { r.rec("Fails"); return fmt.Errorf("boom %s", s) }
+
 // codedErr is an error that carries a JSON-RPC code of its own (as the errors of nested calls do: *ErrResponse from a
 // Remote, go-ethereum RPC errors from the node behind an agent).
 type codedErr struct{ code int }
